@@ -512,6 +512,41 @@ pub fn gen07(ctx: &Ctx) {
 }
 
 
+fn small_req(rng: &mut Rng, nreq: usize) -> Req {
+    match rng.below(4) {
+        0 => { let b: Vec<u8> = (0..rng.range(1, 60)).map(|i| b'A' + ((i + nreq as u64) % 26) as u8).collect(); Req { method: "POST", path: format!("/all?n={nreq}"), fields: vec![("Content-Length".to_string(), b.len().to_string().into_bytes())], body: b } }
+        1 => Req { method: "GET", path: format!("/none?n={nreq}"), fields: vec![], body: vec![] },
+        2 => { let b = format!("carried chunked body {nreq}"); Req { method: "POST", path: format!("/all?c={nreq}"), fields: vec![("Transfer-Encoding".to_string(), b"chunked".to_vec())], body: chunked(b.as_bytes(), rng) } }
+        _ => Req { method: "GET", path: format!("/nosuch/{nreq}"), fields: vec![], body: vec![] },
+    }
+}
+
+/// a chunked first request whose body runs past the first N bytes of its segment, followed by more than N bytes of further
+/// requests (variant % 4 == 2: more than N + 4096, so that part of them is still in the socket when the body reader has read
+/// ahead; variant % 4 == 3 and N <= 256: ending with a head of N + 1 bytes): (bytes, number of requests, ends in 431, long)
+pub fn carry_beyond_limit(rng: &mut Rng, n: usize, variant: usize) -> (Vec<u8>, usize, bool, bool) {
+    let blen = n + 40 + rng.below(200) as usize;
+    let payload: Vec<u8> = (0..blen).map(|i| b'a' + (i % 26) as u8).collect();
+    let first = Req { method: "POST", path: (*rng.pick(&["/all?first", "/none", "/first", "/k/5"])).to_string(), fields: vec![("Transfer-Encoding".to_string(), b"chunked".to_vec())], body: chunked(&payload, rng) };
+    let mut all: Vec<u8> = first.head(); all.extend(&first.body);
+    let mut nreq = 1;
+    let start = all.len();
+    let long = variant % 4 == 2 && n <= 4096;
+    let want = if long { n + 4096 + 1500 } else { n + 100 };
+    while all.len() - start < want || nreq < 3 {
+        let r = small_req(rng, nreq);
+        if r.head().len() + 4 > n { if n <= 64 { let g = Req { method: "GET", path: "/".into(), fields: vec![], body: vec![] }; all.extend(g.head()); nreq += 1; } continue; }
+        all.extend(r.head()); all.extend(&r.body); nreq += 1;
+        if nreq > 600 { break; }
+    }
+    let mut tail431 = variant % 4 == 3 && n <= 256 && all.len() - start < 2800;
+    if tail431 {
+        let mut r = Req { method: "GET", path: "/none".into(), fields: vec![], body: vec![] };
+        let base = r.head().len(); if n + 1 > base + 5 { r.fields.insert(0, ("x".into(), vec![b'p'; n + 1 - base - 5])); all.extend(r.head()); nreq += 1; } else { tail431 = false; }
+    }
+    (all, nreq, tail431, long)
+}
+
 // ------------------------------------------------------------------------------------------ pipelined histories (C03 C05 C06 C09 C10)
 /// stream `connpipe`: requests sent without waiting for the answers, against head limits from 64 to 16384 bytes; the same
 /// bytes under several segmentations (scripts joined by '#', as in `segpair`).  What is read beyond a request's body is
@@ -524,14 +559,6 @@ pub fn gen_pipe(ctx: &Ctx) {
                 (or more than N + 4096) bytes of further requests with fixed-length / chunked / no bodies, optionally ending with a head of N+1 bytes; (b) N = 16384: a short chunked first request followed in the same \
                 segment by 5..12 KB of further requests; (c) a response that closes with a request pipelined behind it; (d) a carried malformed prefix without a blank line. Each as one segment, cut at a random point, \
                 and in small pieces where no close is involved: all segmentations must give the same transcript, and it must be the sequential reading of the bytes. non-trivial = at least two requests answered".into();
-    let small_req = |rng: &mut Rng, nreq: usize| -> Req {
-        match rng.below(4) {
-            0 => { let b: Vec<u8> = (0..rng.range(1, 60)).map(|i| b'A' + ((i + nreq as u64) % 26) as u8).collect(); Req { method: "POST", path: format!("/all?n={nreq}"), fields: vec![("Content-Length".to_string(), b.len().to_string().into_bytes())], body: b } }
-            1 => Req { method: "GET", path: format!("/none?n={nreq}"), fields: vec![], body: vec![] },
-            2 => { let b = format!("carried chunked body {nreq}"); Req { method: "POST", path: format!("/all?c={nreq}"), fields: vec![("Transfer-Encoding".to_string(), b"chunked".to_vec())], body: chunked(b.as_bytes(), rng) } }
-            _ => Req { method: "GET", path: format!("/nosuch/{nreq}"), fields: vec![], body: vec![] },
-        }
-    };
     let emit = |out: &mut Out, rng: &mut Rng, n: usize, all: &[u8], nreq: usize, styles: &[u64], class: &str| {
         let scripts: Vec<String> = styles.iter().map(|&st| {
             let mut steps: Vec<String> = cut(rng, all, st).iter().map(|s| format!("D{}", hex(s))).collect();
@@ -546,29 +573,11 @@ pub fn gen_pipe(ctx: &Ctx) {
     // (a)
     for &n in &[64usize, 256, 1024, 4096, 16384] {
         for variant in 0..(if ctx.thorough { 16 } else { 4 }) {
-            let blen = n + 40 + rng.below(200) as usize;
-            let payload: Vec<u8> = (0..blen).map(|i| b'a' + (i % 26) as u8).collect();
-            let first = Req { method: "POST", path: (*rng.pick(&["/all?first", "/none", "/first", "/k/5"])).to_string(), fields: vec![("Transfer-Encoding".to_string(), b"chunked".to_vec())], body: chunked(&payload, &mut rng) };
-            let mut all: Vec<u8> = first.head(); all.extend(&first.body);
-            let mut nreq = 1;
-            let start = all.len();
-            // variant 2: more than the body reader's read-ahead as well, so that part of the tail is still in the socket
-            let want = if variant % 4 == 2 && n <= 4096 { n + 4096 + 1500 } else { n + 100 };
-            while all.len() - start < want || nreq < 3 {
-                let r = small_req(&mut rng, nreq);
-                if r.head().len() + 4 > n { if n <= 64 { let g = Req { method: "GET", path: "/".into(), fields: vec![], body: vec![] }; all.extend(g.head()); nreq += 1; } continue; }
-                all.extend(r.head()); all.extend(&r.body); nreq += 1;
-                if nreq > 600 { break; }
-            }
-            let tail431 = variant % 4 == 3 && n <= 256 && all.len() - start < 2800;
-            if tail431 {
-                let mut r = Req { method: "GET", path: "/none".into(), fields: vec![], body: vec![] };
-                let base = r.head().len(); if n + 1 > base + 5 { r.fields.insert(0, ("x".into(), vec![b'p'; n + 1 - base - 5])); all.extend(r.head()); nreq += 1; }
-            }
+            let (all, nreq, tail431, long) = carry_beyond_limit(&mut rng, n, variant);
             // (a close with bytes still unread in the server's socket resets the connection and the client loses the answers it
             // has not read yet: the history that ends in 431 is delivered as one segment only)
             let styles: &[u64] = if tail431 { &[0] } else { &[0, 1, 3] };
-            emit(&mut out, &mut rng, n, &all, nreq, styles, &format!("carry-beyond-limit/N={n}{}", if tail431 { "/431" } else if want > n + 100 { "/long" } else { "" }));
+            emit(&mut out, &mut rng, n, &all, nreq, styles, &format!("carry-beyond-limit/N={n}{}", if tail431 { "/431" } else if long { "/long" } else { "" }));
         }
     }
     // (b)
